@@ -14,6 +14,7 @@
 //                               call live objects == size(s) + size(t), at the end of the history none is left
 //            fms_<cmp>          etl::flat_multiset<int, etl::static_vector<int, 8>, Cmp>: "<config> <n> k1..kn"
 //   cmp    = less | greater | tless (etl::less<>, heterogeneous lookups) | half (a/2 < b/2: equivalence != equality)
+//            | tgreater (etl::greater<>: the second transparent comparator, descending; ss / fsv / sst / fst at capacity 3 and 8)
 //   step   = i k | e k | ih h k | ir n k.. | as n k.. | asu n k.. | ek k | ep p | er a b | ef t m | cl | sw | x | rp n k..
 //            asi n k..  construction from a forward-iterator range (no distance precondition) / flat_set(first, last)
 //            asui n k.. flat_set(sorted_unique, first, last)        cp  copy assignment s = t (or copy-construct + move-assign)
@@ -115,12 +116,15 @@ struct half_less {
 
 // a comparator with run-time state: flat_set stores it (_compare), copies it on copy assignment and
 // exchanges it on swap; the constructors without a comparator argument default-construct it (ascending)
+// It is also TRANSPARENT (heterogeneous point / band keys, declared below): a heterogeneous overload that compared
+// with Compare{} instead of the stored _compare is visible only with a comparator that is both.
 struct dyn_less {
-    bool desc = false;
-    template <KeyLike X, KeyLike Y>
+    using is_transparent = void;
+    bool desc            = false;
+    template <typename X, typename Y>
     auto operator()(X const& a, Y const& b) const -> bool
     {
-        return desc ? as_int(b) < as_int(a) : as_int(a) < as_int(b);
+        return desc ? b < a : a < b;
     }
 };
 
@@ -136,6 +140,11 @@ struct HB {
 };
 template <KeyLike T> auto operator<(HB a, T const& b) -> bool { return a.hi < as_int(b); }
 template <KeyLike T> auto operator<(T const& a, HB b) -> bool { return as_int(a) < b.lo; }
+// the same keys as the transparent greater<> sees them (descending order): e > band = e above the band, band > e = e below it
+template <KeyLike T> auto operator>(HK a, T const& b) -> bool { return a.v > as_int(b); }
+template <KeyLike T> auto operator>(T const& a, HK b) -> bool { return as_int(a) > b.v; }
+template <KeyLike T> auto operator>(HB a, T const& b) -> bool { return a.lo > as_int(b); }
+template <KeyLike T> auto operator>(T const& a, HB b) -> bool { return as_int(a) > b.hi; }
 
 // a forward (not random-access) iterator over an int array: the iterator-range constructors and
 // insert(first, last) take their `if constexpr (RandomAccessIterator)` = false branch with it
@@ -813,6 +822,7 @@ bool part_greater(std::string const& fam, Toks& in, Out& impl, Out& ref);
 bool part_tless(std::string const& fam, Toks& in, Out& impl, Out& ref);
 bool part_half(std::string const& fam, Toks& in, Out& impl, Out& ref);
 bool part_dyn(std::string const& fam, Toks& in, Out& impl, Out& ref);
+bool part_tgreater(std::string const& fam, Toks& in, Out& impl, Out& ref);
 } // namespace c09
 
 #if C09_HAS(0)
@@ -835,8 +845,8 @@ bool c09::part_dyn(std::string const& fam, Toks& in, Out& impl, Out& ref)
         using C = etl::static_vector<int, Cap>;
         using S = etl::flat_set<int, C, dyn_less>;
         using R = std::set<int, dyn_less>;
-        run_impl<Kind::flat_set, S, C, false>(in, impl, Cap);
-        run_ref<Kind::flat_set, R, dyn_less, false>(in, ref, Cap);
+        run_impl<Kind::flat_set, S, C, true>(in, impl, Cap);
+        run_ref<Kind::flat_set, R, dyn_less, true>(in, ref, Cap);
         return true;
     };
     switch (in.num()) {
@@ -856,6 +866,46 @@ bool c09::part_tless(std::string const& fam, Toks& in, Out& impl, Out& ref)
 }
 #endif
 #if C09_HAS(3)
+// the second transparent comparator: a heterogeneous overload that hard-coded less<> instead of key_compare would be
+// invisible with less<> alone.  Fewer instantiations than the other comparators (compile time): capacity 3 and 8.
+bool c09::part_tgreater(std::string const& fam, Toks& in, Out& impl, Out& ref)
+{
+    using R = std::set<int, std::greater<>>;
+    auto go = [&]<std::size_t Cap>() {
+        if (fam == "ss") {
+            using S = etl::static_set<int, Cap, etl::greater<>>;
+            run_impl<Kind::static_set, S, void, true>(in, impl, Cap);
+            run_ref<Kind::static_set, R, std::greater<>, true>(in, ref, Cap);
+            return true;
+        }
+        if (fam == "fsv") {
+            using C = etl::static_vector<int, Cap>;
+            using S = etl::flat_set<int, C, etl::greater<>>;
+            run_impl<Kind::flat_set, S, C, true>(in, impl, Cap);
+            run_ref<Kind::flat_set, R, std::greater<>, true>(in, ref, Cap);
+            return true;
+        }
+        if (fam == "sst") {
+            using S = etl::static_set<TK, Cap, etl::greater<>>;
+            run_impl<Kind::static_set, S, void, true>(in, impl, Cap);
+            run_ref<Kind::static_set, R, std::greater<>, true>(in, ref, Cap);
+            return true;
+        }
+        if (fam == "fst") {
+            using C = etl::static_vector<TK, Cap>;
+            using S = etl::flat_set<TK, C, etl::greater<>>;
+            run_impl<Kind::flat_set, S, C, true>(in, impl, Cap);
+            run_ref<Kind::flat_set, R, std::greater<>, true>(in, ref, Cap);
+            return true;
+        }
+        return false;
+    };
+    switch (in.num()) {
+    case 3: return go.template operator()<3>();
+    case 8: return go.template operator()<8>();
+    default: return false;
+    }
+}
 bool c09::part_half(std::string const& fam, Toks& in, Out& impl, Out& ref)
 {
     if (fam == "fms") { multiset_case<half_less, half_less>(in, impl, ref); return true; }
@@ -875,6 +925,7 @@ bool vh::run_case(std::string const& op, Toks& in, Out& impl, Out& ref)
     if (cmp == "tless") { return c09::part_tless(fam, in, impl, ref); }
     if (cmp == "half") { return c09::part_half(fam, in, impl, ref); }
     if (cmp == "dyn") { return c09::part_dyn(fam, in, impl, ref); }
+    if (cmp == "tgreater") { return c09::part_tgreater(fam, in, impl, ref); }
     return false;
 }
 
